@@ -271,6 +271,7 @@ func (e *Engine) assign(st *State, lhs ast.Expr, v Val) error {
 			return err
 		}
 		what := describe(l, e.Fset)
+		e.inPlaceWrite(st, l.X, l.Pos())
 		bt := base.Ty.Underlying()
 		viaPtr := false
 		var ptr Val
@@ -1278,4 +1279,118 @@ func (e *Engine) noteFieldWrite(fid int, x ast.Expr) {
 		e.fieldWObj[fid] = map[*types.Var]bool{}
 	}
 	e.fieldWObj[fid][v] = true
+}
+
+// paramOf: x is (an identifier of) a parameter of the function under verification whose type is a map or a slice.
+func (e *Engine) paramOf(x ast.Expr) *types.Var {
+	id, ok := ast.Unparen(x).(*ast.Ident)
+	if !ok || e.cur == nil || e.cur.Obj == nil {
+		return nil
+	}
+	v, ok := e.info().ObjectOf(id).(*types.Var)
+	if !ok {
+		return nil
+	}
+	sig := e.cur.Obj.Type().(*types.Signature)
+	for i := 0; i < sig.Params().Len(); i++ {
+		if sig.Params().At(i) == v {
+			switch v.Type().Underlying().(type) {
+			case *types.Map, *types.Slice:
+				return v
+			}
+		}
+	}
+	return nil
+}
+
+func (e *Engine) declaredMutable(name string) bool {
+	if e.curCon == nil {
+		return false
+	}
+	for _, mp := range e.curCon.Attrs["mutates-arg"] {
+		if strings.TrimSpace(mp) == name {
+			return true
+		}
+	}
+	return false
+}
+
+// inPlaceWrite: an element write (m[k] = v, s[i] = v, delete(m, k)) whose base is a parameter is an
+// effect on the caller's value; the value model of maps and slices does not show it, so the
+// contract must declare it ("mutates-arg: p").
+func (e *Engine) inPlaceWrite(st *State, base ast.Expr, pos token.Pos) {
+	if !e.ArgOwnership {
+		return
+	}
+	if v := e.paramOf(base); v != nil && !e.declaredMutable(v.Name()) {
+		e.oblige(st, "safety", "in-place-write-to-argument("+v.Name()+")", pos, smt.False)
+	}
+}
+
+// ownedArgument: the argument handed to a parameter the callee mutates in place is a value this
+// function owns: a parameter it may itself mutate, or a local variable that is never assigned
+// from a field, an element or another variable (only from make, literals, nil and call results).
+func (e *Engine) ownedArgument(x ast.Expr) bool {
+	id, ok := ast.Unparen(x).(*ast.Ident)
+	if !ok {
+		return false
+	}
+	v, ok := e.info().ObjectOf(id).(*types.Var)
+	if !ok || v.IsField() || v.Parent() == nil || (v.Pkg() != nil && v.Parent() == v.Pkg().Scope()) {
+		return false
+	}
+	if p := e.paramOf(x); p != nil {
+		return e.declaredMutable(p.Name())
+	}
+	sig := e.cur.Obj.Type().(*types.Signature)
+	for i := 0; i < sig.Params().Len(); i++ {
+		if sig.Params().At(i) == v {
+			return false
+		}
+	}
+	if r := sig.Recv(); r == v {
+		return false
+	}
+	owned := true
+	fresh := func(rhs ast.Expr) bool {
+		switch r := ast.Unparen(rhs).(type) {
+		case *ast.CallExpr, *ast.CompositeLit:
+			return true
+		case *ast.Ident:
+			return r.Name == "nil"
+		}
+		return false
+	}
+	ast.Inspect(e.cur.Decl.Body, func(n ast.Node) bool {
+		switch s := n.(type) {
+		case *ast.AssignStmt:
+			for i, l := range s.Lhs {
+				lid, ok := l.(*ast.Ident)
+				if !ok || e.info().ObjectOf(lid) != v {
+					continue
+				}
+				if len(s.Rhs) == len(s.Lhs) {
+					if !fresh(s.Rhs[i]) {
+						owned = false
+					}
+				} else if _, isCall := ast.Unparen(s.Rhs[0]).(*ast.CallExpr); !isCall {
+					owned = false
+				}
+			}
+		case *ast.ValueSpec:
+			for i, nm := range s.Names {
+				if e.info().ObjectOf(nm) == v && i < len(s.Values) && !fresh(s.Values[i]) {
+					owned = false
+				}
+			}
+		case *ast.RangeStmt:
+			for _, l := range []ast.Expr{s.Key, s.Value} {
+				if lid, ok := l.(*ast.Ident); ok && e.info().ObjectOf(lid) == v {
+					owned = false
+				}
+			}
+		}
+		return true
+	})
+	return owned
 }
